@@ -11,25 +11,25 @@ def claim(i, cat, technique, text, note, ref):
 
 claim("C05", "model_checking",
       "bounded exhaustive enumeration of raw-row layouts x wire assignments, real prover/verifier vs independent row model M1",
-      "Every enumerated (layout, assignment) pair - all arithmetic selector tuples over a small coefficient set, every custom-gate family alone / pairwise / all at once, first / middle / last-row-of-full-domain placement, every single-wire perturbation, copy-constraint breaks on every wire-column pair, size mismatches - is executed on the real Prover::prove + Verifier::verify and must agree with the independent row model M1 (accept iff satisfied, CircuitUnsatisfied / InvalidCircuitSize otherwise, never a panic, never an unverifiable proof). Vacuity gates require each of the 17 identity components to be the only failing one in at least one case.",
+      "Every enumerated (layout, assignment) pair - all arithmetic selector tuples over a small coefficient set, every custom-gate family alone / pairwise / all at once, first / middle / last-row-of-full-domain placement, every single-wire perturbation, copy-constraint breaks on every wire-column pair, size mismatches, instances that emit other selectors than the compiled description (none / plain arithmetic / another family) on the same rows - is executed on the real Prover::prove + Verifier::verify and must agree with the independent row model M1 (accept iff satisfied, CircuitUnsatisfied / InvalidCircuitSize otherwise, never a panic, never an unverifiable proof). Vacuity gates require each of the 17 identity components to be the only failing one in at least one case.",
       "Trusts M1 (DESIGN Appendix A.1) as the statement of the gate identities, dusk-bls12_381/dusk-jubjub field and curve arithmetic, and treats separation-challenge cancellations (~2^-250) as impossible. Field values come from constructed assignments and small perturbations, not the whole field.",
       "DESIGN.md §5 C05")
 
 claim("C06", "model_checking",
-      "exhaustive enumeration of 134 RNG scripts (each of the 14 draws replaced, every pair forced equal) x circuits, real prover vs independent reference prover M3 byte for byte plus mask algebra",
-      "For every script the real prover must draw exactly 14 x 64 bytes via fill_bytes in protocol order, its proof must be byte-identical to the naive reference prover M3 (own DFT, schoolbook arithmetic, explicit commitments, literal transcript table), every opening must equal the unmasked value (interpolated from the witness table by definition) plus the prescribed (b0+b1X[+b2X^2])*Z_H mask, changing draw i must move exactly the commitments the protocol order predicts by exactly delta*(P_{n+e}-P_e), and proofs from disjoint scripts share no commitment or evaluation.",
+      "exhaustive enumeration of RNG scripts (each of the 14 draws replaced by 1, -1, rho and 0; every pair forced equal; zero pairs; all-zero) x circuits, real prover vs independent reference prover M3 byte for byte plus mask algebra",
+      "For every script the real prover must draw exactly 14 x 64 bytes via fill_bytes in protocol order, its proof must be byte-identical to the naive reference prover M3 (own DFT, schoolbook arithmetic, explicit commitments, literal transcript table), every opening must equal the unmasked value (interpolated from the witness table by definition) plus the prescribed (b0+b1X[+b2X^2])*Z_H mask, changing draw i must move exactly the commitments the protocol order predicts by exactly delta*(P_{n+e}-P_e), and proofs from disjoint scripts share no commitment or evaluation; a zero draw is a draw like any other (exactly 14 draws consumed, proof equal to M3's whenever one is produced).",
       "Trusts M3 (own code, bound to the real prover by byte equality on every script), dusk-bls12_381 arithmetic and merlin. Decides the masking structure for the enumerated scripts and small circuits (n <= 64); the statistical zero-knowledge consequence is not re-proved.",
       "DESIGN.md §5 C06")
 
 claim("C09", "model_checking",
       "deviation-bounded exhaustive exploration (E2) of the range gadget for every width x boundary value, every assignment decided by the row model M1, verdicts replayed on the real prover",
-      "For every width (quick: 22 residue-class representatives incl. 0,1,254,255,256; thorough: all 0..=256), every entry point (bit-counted, deprecated bit-pair-counted, runtime seam) and every boundary value, the honest assignment and every bound-1 deviation of the gadget's own allocations (bound 2 for widths <= 12 in thorough), re-run through the real witness generator, is decided by M1: satisfiable iff canonical value < 2^w, and no deviation makes an out-of-range value satisfiable. Both entry points must emit identical gates for equal widths. Model verdicts (honest, every model-satisfiable deviation, unsatisfiable samples per failing component) are replayed on the real prover+verifier.",
+      "For every width (quick: 22 residue-class representatives incl. 0,1,254,255,256; thorough: all 0..=256), every entry point (bit-counted, deprecated bit-pair-counted, runtime seam) and every boundary value, the honest assignment and every bound-1 deviation of the gadget's own allocations (bound 2 for widths <= 12 in thorough), re-run through the real witness generator, is decided by M1: satisfiable iff canonical value < 2^w, and no deviation makes an out-of-range value satisfiable. Both entry points must emit identical gates for equal widths. Non-initial states: the composer's constant witnesses ZERO / ONE as the checked value, and a witness already range-checked to another width (every ordered pair of widths: satisfiable iff below the smaller bound). Model verdicts (honest, every model-satisfiable deviation, unsatisfiable samples per failing component) are replayed on the real prover+verifier.",
       "Trusts M1 (bound to the prover by C05) and the boundary value alphabet; adversary limited to <= 1 (2) deviating allocations with honest recomputation afterwards.",
       "DESIGN.md §5 C09")
 
 claim("C11", "model_checking",
       "deviation-bounded exhaustive exploration (E2) of truncate / decomposition for every N x boundary value incl. all integer representatives x + k r, decided by M1, verdicts replayed on the real prover",
-      "component_truncate::<N> (N = 0..=254) must be satisfiable for every input and return canonical(x) mod 2^N under the honest assignment, every bound-1 deviation and the alias split (low', high') of x + r on allocation pairs; component_decomposition::<N> (N = 1..=256) must be satisfiable iff canonical(x) < 2^N and return exactly its bits - the bit vectors of every other integer representative x + k r < 2^N (the complete adversary space given the boolean rows) must be unsatisfiable. Model verdicts replayed on the real prover+verifier.",
+      "component_truncate::<N> (N = 0..=254) must be satisfiable for every input and return canonical(x) mod 2^N under the honest assignment, every bound-1 deviation and the alias split (low', high') of x + r on allocation pairs; component_decomposition::<N> (N = 1..=256) must be satisfiable iff canonical(x) < 2^N and return exactly its bits - the bit vectors of every other integer representative x + k r < 2^N (the complete adversary space given the boolean rows) must be unsatisfiable. Also: out-of-range splits (low +- 2^N, high -+ 1), the constant witnesses ZERO / ONE as inputs, inputs range-checked beforehand (conjunction of both relations) and a second application to the same witness. Model verdicts replayed on the real prover+verifier.",
       "Trusts M1 (bound to the prover by C05), the 320-bit integer spec M5, and the boundary value alphabet.",
       "DESIGN.md §5 C11")
 
@@ -59,7 +59,7 @@ claim("C04", "model_checking",
 
 claim("C10", "model_checking",
       "deviation-bounded exhaustive exploration (E2) of the AND/XOR gadget for every pair count x input pair incl. the per-operand x + r alias adversary, decided by the row model M1, verdicts replayed on the real prover",
-      "For both operations, pair counts (quick: boundary set; thorough: all 0..=127) and boundary input pairs, the honest assignment, every bound-1 deviation of the gadget's allocations and the alias adversary (all accumulators/products/outputs recomputed for the integer x + r with the matching high part) are decided by M1: always satisfiable for honest inputs and every satisfying assignment returns AND/XOR of the low 2p bits of the canonical values. Model verdicts replayed on the real prover+verifier.",
+      "For both operations, pair counts (quick: boundary set; thorough: all 0..=127) and boundary input pairs, the honest assignment, every bound-1 deviation of the gadget's allocations and the alias adversary (all accumulators/products/outputs recomputed for the integer x + r with the matching high part) are decided by M1: always satisfiable for honest inputs and every satisfying assignment returns AND/XOR of the low 2p bits of the canonical values. Also: forged product wires solved to cancel against the op identity, op(x, x) on one witness with a foreign right operand, the constant witnesses ZERO / ONE as operands, operands range-checked beforehand, a second application to the same witnesses. Model verdicts replayed on the real prover+verifier.",
       "Trusts M1 (bound to the prover by C05), the integer spec M5, and the boundary alphabet.",
       "DESIGN.md §5 C10")
 
@@ -77,25 +77,25 @@ claim("C07", "model_checking",
 
 claim("C08", "model_checking",
       "exhaustive enumeration of selector tuples x PI modes x wirings for the general gate (emitted row vs documented row, prover replay) and deviation-bounded exploration (E2, bound 2) of every named component over input tuples, decided by M1",
-      "append_gate over all selector tuples in {0,1,-1}^6 (thorough {0,1,-1,2}^6) x {no PI, PI=0, PI=rho} x 5 wirings emits exactly the documented row (selectors kept, q_arith=1, PI row recorded even when zero); one satisfied and one violated assignment per tuple is replayed on the real prover+verifier; gate_add / gate_mul / append_evaluated_output (q_O in {1,-1,2,0}) / assert_equal / assert_equal_constant / append_constant / append_public / component_boolean / component_select(_one/_zero) over input tuples from F_s: satisfiable iff the documented relation holds, and under every bound-1 and bound-2 deviation of their own allocations every satisfying assignment returns the spec value.",
+      "append_gate over all selector tuples in {0,1,-1}^6 (thorough {0,1,-1,2}^6) x {no PI, PI=0, PI=rho} x 5 wirings emits exactly the documented row (selectors kept, q_arith=1, PI row recorded even when zero); one satisfied and one violated assignment per tuple is replayed on the real prover+verifier; gate_add / gate_mul / append_evaluated_output (q_O in {1,-1,2,0}) / assert_equal / assert_equal_constant / append_constant / append_public / component_boolean / component_select(_one/_zero) over input tuples from F_s: satisfiable iff the documented relation holds, and under every bound-1 and bound-2 deviation of their own allocations every satisfying assignment returns the spec value. Also with aliased operands (one witness on several inputs), with the composer's constant witnesses ZERO / ONE as operands, and after the component was already applied to the same witnesses.",
       "Documented relations are transcribed from each component's rustdoc; M1 (bound to the prover by C05) decides deviations; values from F_s.",
       "DESIGN.md §5 C08")
 
 claim("C12", "model_checking",
       "deviation-bounded exploration (E2, bound 2 + solved-for forgery triples) of the curve-group components over subgroup point pairs / bits / scalars, decided by M1 against own affine Edwards arithmetic, verdicts replayed on the real prover",
-      "component_add_point / sub / neg / select_identity / select_point over all ordered pairs of {O, G, 2G, -G, rho G} (incl. P+(-P), P+P, P+O), bits {0,1,2,-1}, and component_mul_point over scalars {0,1,2,r_J-1,r_J,r_J+1,2^252-1,rho,2^252,-1}: always satisfiable on subgroup inputs, every satisfying assignment (all bound-1/2 deviations, forged helper x1*y2 with x3,y3 solved from the remaining identities) returns the native group result; select_identity unsatisfiable for non-boolean bits; scalars >= 2^252 unsatisfiable. mul_point generic deviations are strided (reported in the evidence).",
+      "component_add_point / sub / neg / select_identity / select_point over all ordered pairs of {O, G, 2G, -G, rho G} (incl. P+(-P), P+P, P+O), bits {0,1,2,-1}, and component_mul_point over scalars {0,1,2,r_J-1,r_J,r_J+1,2^252-1,rho,2^252,-1}: always satisfiable on subgroup inputs, every satisfying assignment (all bound-1/2 deviations, forged helper x1*y2 with x3,y3 solved from the remaining identities) returns the native group result; select_identity unsatisfiable for non-boolean bits; scalars >= 2^252 unsatisfiable. Also with aliased operands, with Composer::IDENTITY (coordinates are the constant witnesses) as an operand of every component, and after a first application to the same witnesses. mul_point generic deviations are strided (reported in the evidence).",
       "Own affine twisted-Edwards arithmetic (M5) is the group-law specification; M1 bound to the prover by C05; inputs pinned.",
       "DESIGN.md §5 C12")
 
 claim("C13", "model_checking",
       "exhaustive (P, Q) products over subgroup points, all 8 torsion cosets, off-curve pairs and the complete on-curve preimage set of [8], through the real torsion-free gates, decided by M1; direct entry points over extended representations",
-      "For P in {subgroup points} u {S + T : T in E[8] \\ {O}} u {off-curve pairs} and prover-chosen Q in {[8^-1]P + T' for all 8 T'} u {other on-curve points} u {off-curve pairs}: assert_torsion_free_gates(P, Q) (+ bound-1 deviations) is M1-satisfiable iff Q is on-curve and [8]Q = P, hence for some Q iff P is an on-curve subgroup member; append_constant_point / the generator check accept exactly members (generator: non-identity) over normal / scaled-Z / Z=0 / inconsistent-T representations and every entry point rejects Z = 0 with an error, no panic.",
+      "For P in {subgroup points} u {S + T : T in E[8] \\ {O}} u {off-curve pairs} and prover-chosen Q in {[8^-1]P + T' for all 8 T'} u {other on-curve points} u {off-curve pairs}: assert_torsion_free_gates(P, Q) (+ bound-1 deviations) is M1-satisfiable iff Q is on-curve and [8]Q = P, hence for some Q iff P is an on-curve subgroup member; append_constant_point / the generator check accept exactly members (generator: non-identity) over normal / scaled-Z / Z=0 / inconsistent-T representations and every entry point rejects Z = 0 with an error, no panic - on a fresh composer and after every history of valid earlier calls (constant identity / G, generator G, combinations), with off-curve neighbours that share a coordinate (or its parity) with a member among the candidates.",
       "Own affine Edwards arithmetic and torsion-point construction (M5); structural classes of P and Q, not all field pairs; inconsistent-T representations of valid points may be accepted or rejected (informational).",
       "DESIGN.md §5 C13")
 
 claim("C14", "model_checking",
       "exhaustive enumeration of prover-chosen signed-digit vectors (single-digit deviations, same-integer rewrites, encodings of s+q, s+-r_J, s+2^253) x scalars x generators through the fixed-base seam plus bound-1 allocation deviations, decided by M1",
-      "component_mul_generator and the signed-digit seam over generators {G, G_nums(, rho G)} and scalar witnesses {0,1,2,r_J-1,r_J,r_J+1,2^252-1,2^252,-1,rho}: satisfiable iff the scalar is canonical (< r_J) and the digit vector (three leading zeros) encodes it as an integer; every satisfying assignment returns [s]G; no digit vector encoding s plus a multiple of either modulus, and no bound-1 deviation of accumulators / xy_alpha / canonicity range checks, yields another point. Verdicts of principal vectors replayed on the real prover.",
+      "component_mul_generator and the signed-digit seam over generators {G, G_nums(, rho G)} and scalar witnesses {0,1,2,r_J-1,r_J,r_J+1,2^252-1,2^252,-1,rho}: satisfiable iff the scalar is canonical (< r_J) and the digit vector (three leading zeros) encodes it as an integer; every satisfying assignment returns [s]G; no digit vector encoding s plus a multiple of either modulus, and no bound-1 deviation of accumulators / xy_alpha / canonicity range checks, yields another point. Non-initial states: the scalar witness range-checked beforehand to 64 / 251 / 252 / 253 / 254 bits or already multiplied by the same / another generator (satisfiable iff canonical AND the history's relation holds, through the public entry point and the seam with honest and binary digits). Verdicts of principal vectors replayed on the real prover.",
       "Own affine Edwards arithmetic (M5) and NAF code; M1 bound to the prover by C05. Quick tier strides digit positions and allocation ordinals (reported).",
       "DESIGN.md §5 C14")
 
@@ -107,19 +107,19 @@ claim("C01", "model_checking",
 
 claim("C15", "model_checking",
       "exhaustive comparison of the compressed and direct compile routes over all E1 program states / named circuits x SRS capacities, plus handcrafted boundary descriptions in a child process with a counting allocator",
-      "For every E1 program state and a named list (unused witnesses, repeated / distinct selector tuples, selectors equal to the built-in table entries, zero-valued PIs, PI on first / last row) at capacities {min-1, min, min+1, ample}: Prover and Verifier bytes from compile_with_compressed equal those of direct compilation and both routes succeed or fail for exactly the same capacities; handcrafted descriptions (constraints = max / max+1, trailing bytes 1..8, each index at bound / bound-1, non-increasing PIs, witness count 1e12, announced lengths 2^31, 1 GiB deflate bomb) are accepted / rejected as specified with peak allocation <= 2 x the valid peak + 1 MiB.",
+      "For every E1 program state and a named list (unused witnesses, repeated / distinct selector tuples, selectors equal to the built-in table entries, zero-valued PIs, PI on first / last row) and transcript labels of boundary lengths (0..65536, zero / 0xff bytes) at capacities {min-1, min, min+1, ample}: Prover and Verifier bytes from compile_with_compressed equal those of direct compilation and both routes succeed or fail for exactly the same capacities; handcrafted descriptions (constraints = max / max+1, trailing bytes 1..8, each index at bound / bound-1, non-increasing PIs, witness count 1e12, announced lengths 2^31, 1 GiB deflate bomb) are accepted / rejected as specified with peak allocation <= 2 x the valid peak + 1 MiB.",
       "Own MessagePack encoder validated by byte-identical re-encoding of real descriptions; capacity rule stated independently.",
       "DESIGN.md §5 C15")
 
 claim("C16", "model_checking",
       "exhaustive round-trip enumeration over E1 program states, boundary-size circuits, handcrafted layouts and SRS degrees; proof canonicity over all 8064 single-bit flips and hand-built non-canonical encodings",
-      "For every explored circuit: Prover / Verifier encode -> decode -> encode is byte-identical and serialized_size exact; the decoded prover produces the identical proof from the same RNG script; the decoded verifier returns the same verdict on the honest proof, one flipped bit per proof field and PI edits; every decodable proof string re-encodes to itself (all 8064 flips + non-canonical scalars / points rejected); PublicParameters (checked and raw forms) re-encode identically and compile to identical keys. Includes a layout whose multiplication selector is identically zero (polynomial lengths differ).",
+      "For every explored circuit: Prover / Verifier encode -> decode -> encode is byte-identical and serialized_size exact; the decoded prover produces the identical proof from the same RNG script; the decoded verifier returns the same verdict on the honest proof, one flipped bit per proof field and PI edits; every decodable proof string re-encodes to itself (all 8064 flips + non-canonical scalars / points rejected); PublicParameters (checked and raw forms) re-encode identically and compile to identical keys. Includes a layout whose multiplication selector is identically zero (polynomial lengths differ), constraint counts exactly on powers of two, and labels of boundary lengths (0..65536, zero / 0xff bytes) stored in the prover encoding.",
       "Behavioural equality observed on the listed presentations, not all proofs.",
       "DESIGN.md §5 C16")
 
 claim("C18", "model_checking",
       "deviation-bounded exhaustive exploration of parallel-region task orders / join orders / reduction shapes / thread counts and hash-map iteration orders of the real code under controllable rayon and hashbrown shims, plus an exhaustive preemption-bounded controlled-scheduler exploration (E6) of concurrent calls through the process-wide label cache",
-      "(a) [patch.crates-io] replaces rayon and hashbrown for the whole dependency graph by shims whose task order, join order, reduction shape, reported thread count and map iteration order an explorer chooses: bound 0, thread sweep {1,2,3,4,5,8,16,17,32}, whole-run policies, and bound 1 (every region / site of the 2^5 circuit x every policy; class representatives + stride on 2^9; thorough: full bound 1 on 2^9, bound 2 on 2^5, representatives on 2^10 / 2^12) over compile, prove, verify and compress: Prover / Verifier / proof / PI / compressed bytes must be identical to the canonical schedule; the shim build's reference bytes equal the real build's. (b) fresh processes (OS-random hash seeds, RAYON_NUM_THREADS), (c) real pools of 1..=17 threads, (d) alloc-only build (separate workspace without std/rayon) give identical bytes; (e) E6: a controlled scheduler (one runnable thread at a time, scheduling points at operation boundaries and at the label-cache lock region hook) explores every schedule of 2-3 threads x 1-2 prove / verify / compile calls up to 2 (thorough 3) preemptions: every call returns what it returns sequentially; (f) 16 free-running threads on shared keys; (g) the 2^5 proof equals the reference prover M3.",
+      "(a) [patch.crates-io] replaces rayon and hashbrown for the whole dependency graph by shims whose task order, join order, reduction shape, reported thread count and map iteration order an explorer chooses: bound 0, thread sweep {1,2,3,4,5,8,16,17,32}, whole-run policies, and bound 1 (every region / site of the 2^5 circuit x every policy; class representatives + stride on 2^9; thorough: full bound 1 on 2^9, bound 2 on 2^5, representatives on 2^10 / 2^12) over compile, prove, verify and compress: Prover / Verifier / proof / PI / compressed bytes must be identical to the canonical schedule; the shim build's reference bytes equal the real build's. (b) fresh processes (OS-random hash seeds, RAYON_NUM_THREADS), (c) real pools of 1..=17 threads on padded AND domain-filling circuits (constraints = 2^k exactly, k = 9..12), (d) alloc-only build (separate workspace without std/rayon) give identical bytes; (e) E6: a controlled scheduler (one runnable thread at a time, scheduling points at operation boundaries and at the label-cache lock region hook) explores every schedule of 2-3 threads x 1-2 prove / verify / compile calls up to 2 (thorough 3) preemptions: every call returns what it returns sequentially; (f) 16 free-running threads on shared keys; (g) the 2^5 proof equals the reference prover M3.",
       "Parallel tasks are atomic for the shim explorer (safe Rust closures, no shared mutable state on these paths - the explorer re-scans the sources for static/Cell/Atomic/Mutex/unsafe and records the set); (b),(c),(f) observe OS schedules and are conformance passes, not the deciding step. Policies are a finite alphabet (identity, reverse, rotate, odd-before-even, last-first, ...), which orders every pair of tasks / entries both ways.",
       "DESIGN.md §5 C18, E5, E5b, E6")
 
